@@ -71,7 +71,7 @@ fn main() {
         ("replay", "pipeline") => pipeline::replay_schedules(),
         ("record", "C02") | ("record", "C06") | ("record", "C07") | ("record", "C08") | ("record", "C14") =>
             laws::record(id, &args[3], &args[4], args.get(5).and_then(|s| s.parse().ok()).unwrap_or(5)),
-        ("record", "C09") => textrec::record_c09(&args[3], args.get(4).and_then(|s| s.parse().ok()).unwrap_or(1000)),
+        ("record", "C09") => textrec::record_c09(&args[3], args.get(4).and_then(|s| s.parse().ok()).unwrap_or(1000), &args[5.min(args.len())..]),
         ("record", "C01") => textrec::record_c01(&args[3], args[4].parse().unwrap(), args.get(5).and_then(|s| s.parse().ok()).unwrap_or(100)),
         ("record", "C03") => scanrec::record(&args[3], &args[4], args.get(5).and_then(|s| s.parse().ok()).unwrap_or(6)),
         ("record", "pipeline") => pipeline::record(&args[3], args.get(4).and_then(|s| s.parse().ok()).unwrap_or(100), util::env_u64("VERIF_SEED", 1)),
